@@ -220,7 +220,7 @@ def main(argv=None):
     if nskip > max(2, 0.05 * len(cases)):
         inconclusive.append("%d of %d cases had no convergent aerostructural coupling" % (nskip, len(cases)))
     # required observations: a monitor/family the property depends on that was never reached => inconclusive
-    if not replay:
+    if not replay and not os.environ.get("VERIF_ONLY_CLASS"):  # (a class-restricted C01 run of tools/mutate.py evaluates one family by design)
         for name in getattr(mod, "REQUIRED_FAMILIES", []):
             if fam.get(name, {}).get("n", 0) == 0:
                 inconclusive.append("required comparison family never evaluated: " + name)
